@@ -433,6 +433,18 @@ impl Cli {
         for step in &script.steps {
             match step {
                 CStep::Send(r) => self.queue_req(r),
+                CStep::SendCut(r, pm) => {
+                    let bytes = encode_req(&self.sh.keys, r);
+                    let cut = (1 + (bytes.len().saturating_sub(2) as u64 * (*pm as u64 % 1000) / 1000) as usize).min(bytes.len().saturating_sub(1)).max(1);
+                    self.queued_total += cut as u64;
+                    self.out.extend(bytes[..cut].iter().copied());
+                    self.pump(&|c: &Cli| c.out.is_empty() || c.reset);
+                    sim.probe("request_cut_then_earlier_replies_awaited");
+                    self.pump(&|c: &Cli| c.unanswered() == 0 || c.eof || c.reset || c.malformed.is_some());
+                    self.queued_total += (bytes.len() - cut) as u64;
+                    self.out.extend(bytes[cut..].iter().copied());
+                    self.reqs.push(ReqRec { req: r.clone(), queued_end: self.queued_total, inv: None, reply: None, ret: None });
+                }
                 CStep::SendRaw(b) => {
                     // raw bytes are what ends a connection in the slot-accounting scenarios
                     self.mark_ended();
